@@ -46,7 +46,8 @@ static rdesc pick(rng& g)
     r.N = 2 + (long long) g.below(7);
     int z = (int) g.below(6);
     r.nz = z == 0 ? 0 : (z == 1 ? 1 : r.N - (long long) g.below(2));
-    r.fin = r.nz;
+    // some of the non-zero evaluations were not finite: the two counters differ (and are summed separately)
+    r.fin = r.nz > 1 && g.below(3) == 0 ? r.nz - 1 - (long long) g.below((unsigned long long) (r.nz - 1)) : r.nz;
     r.e4 = es[g.below(7)];
     int v = (int) g.below(4);
     r.vn = vs[v][0]; r.vd = vs[v][1];
@@ -82,7 +83,7 @@ template <typename T> static void dist_case(rng& g, int m, int k)
         for (int b = 0; b != 7; ++b)
         {
             rdesc r = pick(g);
-            r.N = h.N; if (r.nz > r.N) r.nz = r.N; r.fin = r.nz;
+            r.N = h.N; if (r.nz > r.N) r.nz = r.N; if (r.fin > r.nz) r.fin = r.nz;
             bins[(std::size_t) b].push_back(r);
             (b < 3 ? b0 : b1).push_back(make<T>(r, k));
         }
